@@ -188,4 +188,18 @@ def translatorDecrypt (c : CryptoOps) (cfg : PoisonCfg) (kv : KeyView) (k : Kind
     let cbs := if cfg.hasCallbacks then [poisonCallback c cfg] else []
     (.err, (onColumnT cbs data).2)
 
+/-- the same with the buffer handed to the poison detector on failure made explicit: `DecryptWithHandler(handler,
+data, …)` fails ⇒ `poisonDetector.OnColumn(ctx, scanned)`. WHICH variable the code passes there – and what it holds on
+that path – is a regenerated fact (`Wiring.translatorPoisonSites`); `translatorDecrypt` is the case `scanned = data`. -/
+def translatorDecryptScan (c : CryptoOps) (cfg : PoisonCfg) (kv : KeyView) (k : Kind) (data scanned : Bytes) : Out Bytes × Nat :=
+  match decryptWithHandler c kv k data with
+  | .ok m => (.ok m, 0)
+  | .panic => (.panic, 0)
+  | .err =>
+    let cbs := if cfg.hasCallbacks then [poisonCallback c cfg] else []
+    (.err, (onColumnT cbs scanned).2)
+
+theorem translatorDecryptScan_self (c : CryptoOps) (cfg : PoisonCfg) (kv : KeyView) (k : Kind) (data : Bytes) :
+    translatorDecryptScan c cfg kv k data data = translatorDecrypt c cfg kv k data := rfl
+
 end AcraModel.Envelope
